@@ -10,7 +10,7 @@ import (
 
 type FieldWrite struct {
 	Fn    *Func
-	Node  ast.Node  // the statement / call performing the write
+	Node  ast.Node // the statement / call performing the write
 	Field *types.Var
 	Kind  string   // assign | elem | delete | mutcall:<method> | incdec | addr | compositelit
 	Base  ast.Expr // x in x.f
